@@ -13,6 +13,27 @@ def prepare_text_for_dbml(text: str) -> str:
     return pattern.sub(r'\\\1', text)
 
 
+def quote_name(name: str) -> str:
+    '''Double-quote an identifier unless it is a plain word (letters, digits, underscore).'''
+    if re.fullmatch(r'[A-Za-z0-9_]+', name):
+        return name
+    return f'"{name}"'
+
+
+def quote_type(type_: str) -> str:
+    '''
+    Quote the name part of a column type unless it consists of plain words:
+    `int`, `varchar(255)`, `int[]`, `schema.type` stay as they are, `my type` becomes `"my type"`.
+    '''
+    match = re.fullmatch(r'(?P<base>.*?)(?P<suffix>\[\]|\(.*\))?', type_, flags=re.DOTALL)
+    if match is None:  # pragma: no cover
+        return type_
+    base, suffix = match['base'], match['suffix'] or ''
+    if re.fullmatch(r'[A-Za-z0-9_]+(\.[A-Za-z0-9_]+)?', base):
+        return type_
+    return f'"{base}"{suffix}'
+
+
 def quote_string(text: str) -> str:
     if '\n' in text:
         return f"'''\n{prepare_text_for_dbml(text)}'''"
